@@ -161,11 +161,20 @@ def _interp_records(chk):
             except Exception as ex:  # noqa: BLE001 - the round-trip records carry the verdict for this failure
                 chk.diag(f"interpolator clause: card from {src} (log={log}, degree={deg}) could not be produced: {type(ex).__name__}: {str(ex)[:120]}")
                 continue
+            if chk.rng.random() < 0.5:
+                # an earlier call in the same process for a card with the SAME points and degree but the other
+                # flag: whatever it leaves behind at module level must not decide this call
+                other = copy.deepcopy(card)
+                other.configs.interpolation_is_log = not bool(card.configs.interpolation_is_log)
+                try:
+                    commons.interpolator(other)
+                except Exception:  # noqa: BLE001 - only its side effects matter
+                    pass
             del seen[:]
             disp = commons.interpolator(card)
-            if len(seen) != 1:
+            if len(seen) > 1:
                 raise MachineryError(f"commons.interpolator constructed {len(seen)} dispatchers")
-            if bool(disp.log) != seen[0][0] or int(disp.polynomial_degree) != seen[0][1]:
+            if seen and (bool(disp.log) != seen[0][0] or int(disp.polynomial_degree) != seen[0][1]):
                 chk.diag(f"dispatcher attributes {disp.log, disp.polynomial_degree} differ from constructor arguments {seen[0]}")
             modes = {bool(getattr(b, "_mode_log", disp.log)) for b in disp}
             if modes != {bool(disp.log)}:
